@@ -165,3 +165,52 @@ package toy
 //@   requires n != nil && n.val == 5
 //@   modifies n.val
 //@   ensures n.val == 6
+
+//@ guarded_by reg.m mu T01 reacquire
+//@ func (*reg).putOnceOK
+//@   serves T01
+//@   requires r != nil && r.m != nil && !r.mu.held
+//@   modifies r.m[k], r.mu.held
+//@   ensures[insert-only-when-absent] result == !old(has(r.m, k)) && !r.mu.held
+//@ func (*reg).putOnceBad
+//@   serves T01
+//@   requires r != nil && r.m != nil && !r.mu.held
+//@   modifies r.m[k], r.mu.held
+//@   noframe
+//@   ensures[insert-only-when-absent] result == !old(has(r.m, k)) && !r.mu.held
+//@   ensures[another-key-is-untouched] k != "other" ==> has(r.m, "other") == old(has(r.m, "other"))
+
+//@ ghost var tJoin int
+//@ ghost var tSpawn int
+//@ func worker
+//@   trusted
+//@ func joinOK
+//@   serves T01
+//@   modifies tJoin, tSpawn
+//@   at recv all after set tJoin = tJoin + 1
+//@   at call all of worker before set tSpawn = tSpawn + 1
+//@   ensures[every-worker-joined] tJoin - old(tJoin) == tSpawn - old(tSpawn)
+//@ func joinBad
+//@   serves T01
+//@   modifies tJoin, tSpawn
+//@   at recv all after set tJoin = tJoin + 1
+//@   at call all of worker before set tSpawn = tSpawn + 1
+//@   ensures[every-worker-joined] tJoin - old(tJoin) == tSpawn - old(tSpawn)
+
+//@ func spawnOK$1
+//@   serves T01
+//@   requires[report-has-room] cap(errc) >= 1
+//@ func spawnOK
+//@   serves T01
+//@ func spawnBad$1
+//@   serves T01
+//@   requires[report-has-room] cap(errc) >= 1
+//@ func spawnBad
+//@   serves T01
+
+//@ func dropOK
+//@   serves T01
+//@   safe slice
+//@   requires n > 0
+//@   ensures[parameter-inside-old-is-the-entry-value] result <= len(old(b)) && result >= 0
+//@   loop 0 invariant len(b) <= len(old(b)) && total == len(old(b))
